@@ -26,6 +26,7 @@ import (
 	"os"
 	"path"
 	"path/filepath"
+	"reflect"
 	"sort"
 	"strings"
 	"time"
@@ -297,6 +298,73 @@ func sameLayerInterference(l []imgkit.Entry) bool {
 // ---- comparing one view ----
 
 type mismatch struct{ kind, detail string }
+
+// squashWithRequirer: "the squashed on-disk unpacking contains the same regular files as the final
+// view" also under a restriction to required files. A required symlink keeps its target in the
+// view; the unpacker must bring that target to disk as well, however the target is spelled
+// (relative and climbing, absolute, same directory, with redundant components), for links at depth
+// 1..3 and targets in another / the same / a parent directory.
+func squashWithRequirer(r *ev.Run, base string) {
+	type tcase struct{ link, target, spelled string }
+	var cases []tcase
+	for _, link := range []string{"l", "app/l", "app/conf/l"} {
+		for _, target := range []string{"t.txt", "etc/t.txt", "app/t.txt", "app/conf/t.txt"} {
+			ups := strings.Repeat("../", strings.Count(link, "/"))
+			spellings := []string{"/" + target, ups + target}
+			if path.Dir(link) == path.Dir(target) {
+				spellings = append(spellings, path.Base(target), "./"+path.Base(target))
+			}
+			if strings.Count(link, "/") >= 1 {
+				spellings = append(spellings, ups+"x/../"+target)
+			}
+			for _, sp := range spellings {
+				cases = append(cases, tcase{link, target, sp})
+			}
+		}
+	}
+	for _, tc := range cases {
+		es := []imgkit.Entry{imgkit.File(tc.target, "target-content"), imgkit.File("unrelated.txt", "u"), imgkit.Sym(tc.link, tc.spelled)}
+		for _, split := range []bool{false, true} {
+			layers := [][]imgkit.Entry{es}
+			if split {
+				layers = [][]imgkit.Entry{es[:2], es[2:]} // the link arrives in a later layer than its target
+			}
+			var tars [][]byte
+			for _, l := range layers {
+				tars = append(tars, imgkit.TarBytes(l))
+			}
+			rimg, err := imgkit.RealImage(tars, nil)
+			if err != nil {
+				continue
+			}
+			dir, _ := os.MkdirTemp(base, "sqr")
+			out := filepath.Join(dir, "out")
+			os.Mkdir(out, 0o755)
+			req := require.NewFileRequirerPaths([]string{tc.link, "/" + tc.link})
+			u, _ := unpack.NewUnpacker(unpack.DefaultUnpackerConfig().WithRequirer(req))
+			uerr := u.UnpackSquashed(out, rimg)
+			r.Evals.Add(1)
+			r.Nontrivial.Add(1)
+			got := map[string]string{}
+			_ = filepath.Walk(out, func(p string, fi os.FileInfo, err error) error {
+				if err == nil && fi.Mode().IsRegular() {
+					b, _ := os.ReadFile(p)
+					rel, _ := filepath.Rel(out, p)
+					got[rel] = string(b)
+				}
+				return nil
+			})
+			want := map[string]string{tc.target: "target-content"}
+			rp := map[string]any{"link": tc.link, "target": tc.target, "spelled": tc.spelled, "link_in_later_layer": split}
+			if uerr != nil {
+				r.Violation("squash-error", fmt.Sprintf("link %s -> %s, only the link required: %v", tc.link, tc.spelled, uerr), rp)
+			} else if !reflect.DeepEqual(got, want) {
+				r.Violation("squashed-unpack-differs", fmt.Sprintf("link %s -> %q (target %s), only the link is required: regular files on disk %v, want %v (the final view under the same requirer keeps the link's target)", tc.link, tc.spelled, tc.target, got, want), rp)
+			}
+			os.RemoveAll(dir)
+		}
+	}
+}
 
 // handleLaws: "content" also means what a reader gets through the other access paths of a file
 // handle, and that one handle does not disturb another: a second Open of the same path while the
@@ -961,6 +1029,15 @@ func main() {
 			for _, rq := range append([]string{"none", "empty-path-list"}, universe...) {
 				report(&caseT{Layers: [][]imgkit.Entry{l0, l1}, Style: "plain", Req: rq})
 			}
+			// restricted loads of images whose history begins or ends with empty (metadata-only) entries
+			for _, h := range [][]imgkit.Hist{
+				{{CreatedBy: "c0"}, {CreatedBy: "c1"}, {CreatedBy: "e", Empty: true}},
+				{{CreatedBy: "e", Empty: true}, {CreatedBy: "c0"}, {CreatedBy: "c1"}, {CreatedBy: "e2", Empty: true}},
+			} {
+				for _, rq := range []string{"none", universe[0], universe[1]} {
+					report(&caseT{Layers: [][]imgkit.Entry{l0, l1}, Style: "plain", History: h, Req: rq})
+				}
+			}
 		}
 	})
 	if done < len(sets)+n2 {
@@ -1000,6 +1077,7 @@ func main() {
 			r.Violation(k, fmt.Sprintf("single layer %s: %s", layerStr(c.Layers), d), c)
 		}
 	})
+	squashWithRequirer(r, base)
 	// the unpacker's documented defaults: a limit of 0 or less is "unset", not "none at all"
 	for _, one := range single {
 		for _, uc := range []string{"zero-is-default", "negative-is-default"} {
@@ -1107,5 +1185,5 @@ func main() {
 	}
 	os.RemoveAll(base)
 	r.Assume("imgkit.Model.Apply (~60 lines) is the OCI image-spec change-set application: whiteouts act on lower layers only, then the layer's entries are added")
-	r.Finish(fmt.Sprintf("universe %v; entry kinds: file(2 contents/modes), dir, whiteout, opaque marker per path + 4 symlinks (%d options); layers = all well-formed sets of <=%d entries (%d); all 1- and 2-layer images, every entry order per layer (plain names), canonical order with './' and '/' name styles; for images where an upper layer touches a lower one: 5 history arrangements incl. empty layers at every position and a short history, a real layer with an entry-less tar stream at every position, missing config, requirer none / empty path list / each path (the library's path requirer); deep-pruning family (file 4 levels down x requirers); prefix-sibling family (names a, a/x, ab, ab/x, a.b, a.wh.b, hw, .w; lower layer <=2 (thorough 3) entries x upper layer 1 (thorough <=2) entry, + a third layer on top); squashed on-disk unpack AND a FromTarball load of the saved tarball for all pairs of single-entry layers, all one-layer images of <=2 entries (and every single-entry layer with the unpacker's limits set to 0 and to -1, both documented as 'unset'); thorough adds all 3-layer images (<=%d,<=%d,1). Each view: Stat/Open+Read (plus: a second handle opened while the first is part-way through, ReadAt at every offset, Seek from the end) on every universe path + 2 absent paths, ReadDir of every directory, WalkDir. non-trivial = an upper-layer entry overlaps a lower-layer entry", universe, len(opts), maxEntries, len(sets), maxEntries, maxEntries), complete)
+	r.Finish(fmt.Sprintf("universe %v; entry kinds: file(2 contents/modes), dir, whiteout, opaque marker per path + 4 symlinks (%d options); layers = all well-formed sets of <=%d entries (%d); all 1- and 2-layer images, every entry order per layer (plain names), canonical order with './' and '/' name styles; for images where an upper layer touches a lower one: 5 history arrangements incl. empty layers at every position and a short history, a real layer with an entry-less tar stream at every position, missing config, requirer none / empty path list / each path (the library's path requirer), also combined with histories that begin or end with empty entries; deep-pruning family (file 4 levels down x requirers); prefix-sibling family (names a, a/x, ab, ab/x, a.b, a.wh.b, hw, .w; lower layer <=2 (thorough 3) entries x upper layer 1 (thorough <=2) entry, + a third layer on top); squashed on-disk unpack AND a FromTarball load of the saved tarball for all pairs of single-entry layers, with a requirer that requires only a symlink (3 link depths x 4 target places x 2-5 target spellings x link in the same / a later layer: the target must reach the disk), all one-layer images of <=2 entries (and every single-entry layer with the unpacker's limits set to 0 and to -1, both documented as 'unset'); thorough adds all 3-layer images (<=%d,<=%d,1). Each view: Stat/Open+Read (plus: a second handle opened while the first is part-way through, ReadAt at every offset, Seek from the end) on every universe path + 2 absent paths, ReadDir of every directory, WalkDir. non-trivial = an upper-layer entry overlaps a lower-layer entry", universe, len(opts), maxEntries, len(sets), maxEntries, maxEntries), complete)
 }
